@@ -210,3 +210,20 @@ def mask_precedence(i4, j4):
     a = (src != 0) & (dst == 0) | (src > dst)
     b = ((src != 0) & (dst == 0)) | (src > dst)
     return (a, b)
+
+
+def isfinite_mask(f2):
+    return (np.isfinite(f2), np.isnan(f2), bool(np.all(np.isfinite(f2))), bool(np.any(np.isfinite(f2))))
+
+
+def putmask_finite(f2, g2):
+    valid = np.isfinite(g2)
+    np.putmask(f2, valid, g2)
+    return f2
+
+
+def f16_pixel_finite(h3, k3):
+    valid = np.all(np.isfinite(k3), axis=2)
+    valid = np.broadcast_to(valid[..., None], k3.shape)
+    np.putmask(h3, valid, k3)
+    return h3
